@@ -41,7 +41,7 @@ pub struct Gen<'r> {
     recvs: &'static std::collections::BTreeMap<&'static str, RecvDesc>,
 }
 
-const KEY_POOL: [&str; 6] = ["k1", "k2", "k3", "kk", "k1", "x::y"];
+const KEY_POOL: [&str; 8] = ["k1", "k2", "k3", "kk", "k1", "x::y", "r#k1", "r#type"];
 
 impl<'r> Gen<'r> {
     fn id(&mut self) -> u32 {
@@ -555,7 +555,7 @@ impl<'r> Gen<'r> {
         }
         // unknown names
         while self.mistake(self.cfg.allow.unknown && !fields.iter().any(|f| f.flatten && matches!(f.ty, Ty::Map { .. })), 10) {
-            let base = self.rng.pick(&["zz", "qq", "nope", "aa", "longNam", "inne"]).to_string();
+            let base = self.rng.pick(&["zz", "qq", "nope", "aa", "longNam", "inne", "r#type", "r#a", "x::a", "::zz"]).to_string();
             let form = match self.rng.below(3) {
                 0 => Form::Word,
                 1 => Form::NV(Value::Int("1".into())),
